@@ -19,7 +19,15 @@ ANCHORS = {"rfa.py": [(50, 55), (70, 90), (132, 136), (259, 280)], "sorted_array
 EXPLANATION = "structural invariants evaluated on every element of a bounded configuration lattice"
 
 SUPPLIERS = {"interp-float": lambda x, y: (lambda t: float(np.interp(t, x, y))),
-             "interp-0d": lambda x, y: (lambda t: np.asarray(np.interp(t, x, y)))}
+             "interp-0d": lambda x, y: (lambda t: np.asarray(np.interp(t, x, y))),
+             # documented contract: f(float) -> float.  A constant level, a function that only takes scalars, and a
+             # one-point-at-a-time kernel smoother (a ratio of two sums) are all legal sampling functions
+             "constant": lambda x, y: (lambda t: 3.0),
+             "scalar-only": lambda x, y: (lambda t: math.sin(t) + float(y[0])),
+             "kernel": lambda x, y: (lambda t: float(np.sum(np.exp(-(np.asarray(x, dtype=float) - t) ** 2) * np.asarray(y, dtype=float))
+                                                    / np.sum(np.exp(-(np.asarray(x, dtype=float) - t) ** 2)))),
+             "kernel-0d": lambda x, y: (lambda t: np.sum(np.exp(-np.abs(np.asarray(x, dtype=float) - np.mean(t))) * np.asarray(y, dtype=float))
+                                        / np.sum(np.exp(-np.abs(np.asarray(x, dtype=float) - np.mean(t)))))}
 
 
 def bounds(tier, seed):
@@ -124,7 +132,8 @@ def harnesses(tier, seed):
     mmax = 5 if quick else 6
     grids = [g for m in range(2, mmax + 1) for g in A.grids(8, m)]
     ns = [2, 3, 5, 8, 16] if quick else [2, 3, 4, 5, 6, 7, 8, 9, 16, 64]      # every n in 2..64 is covered by the every-n harness
-    strategies = RC.STRATS + ["function:interp-float", "function:interp-0d"]
+    strategies = RC.STRATS + ["function:interp-float", "function:interp-0d", "function:constant", "function:scalar-only", "function:kernel",
+                              "function:kernel-0d"]
     imgs = [lambda v: 0.1 * v + 0.3, lambda v: 1e3 * v - 7, lambda v: v / 3.0]
     ident = lambda v: v  # noqa: E731
     # (dtype, list input?, abscissa image): float images only make sense for the float array variant
